@@ -32,6 +32,7 @@ ConcatIsMonoid == x.inst = "semigroup.From/concat" => ConcatLaws(DomOf("str"), x
 \* whenever neither argument is a prefix of the other)
 IsPrefix(s, t) == Len(s) <= Len(t) /\ SubSeq(t, 1, Len(s)) = s
 SwapVisible == /\ d.logged /\ d.cls # "contramap" /\ x.a # x.b
+               /\ d.base \notin {"const", "true", "false"} /\ ~(d.base = "diff" /\ d.dom = "str")
                /\ (d.op = "concat" => ~IsPrefix(x.a, x.b) /\ ~IsPrefix(x.b, x.a))
                => ExpRes(d, x.a, x.b) # ExpRes(d, x.b, x.a)
 \* the nested constructors get an inner monoid whose empty element differs from the given one; flip and rot do not commute
